@@ -20,7 +20,7 @@ import (
 func TestMain(m *testing.M) { evid.Main(m, "C13") }
 
 type step struct {
-	Kind     string // apply | delete | tiebreak
+	Kind     string // apply | delete | tiebreak | restore
 	Block    *blockchain.Block
 	SaveTemp bool
 	Desc     string
@@ -60,6 +60,14 @@ func runStep(n *node.Node, s step) error {
 		}
 	case "delete":
 		return n.Exec.VerifDeleteBlock(n.Tip(), s.SaveTemp)
+	case "restore":
+		// what fastSyncer.restoreBlocks does with a block parked in the temp area: back on the chain, temp copy removed
+		if err := n.Exec.VerifProcessValidated(node.CloneBlock(s.Block), false, true); err != nil {
+			return err
+		}
+		if !bytes.Equal(n.Tip().Header.ID, s.Block.Header.ID) {
+			return fmt.Errorf("block %d not restored", s.Block.Header.Height)
+		}
 	case "tiebreak":
 		n.Exec.VerifSetLastBlockReceived(nil)
 		nowish := n.Slot.GetSlotTime(n.Cfg.SlotsBehind - 1)
@@ -183,12 +191,16 @@ func runCase(t *rapid.T) {
 	var counts []int
 	var kinds [][]string
 	flagsPer := []map[string]bool{}
+	parked := map[uint32]*blockchain.Block{} // blocks currently held in the temp area, by height
 	for i := 0; i < nSteps; i++ {
 		dumps = append(dumps, node.NormDump(n0.Dump()))
 		tip := n0.Tip()
 		var s step
 		kind := rapid.SampledFrom([]string{"apply", "apply", "apply", "delete", "tiebreak", "tiebreak"}).Draw(t, "kind")
 		fl := map[string]bool{}
+		if pb := parked[tip.Header.Height+1]; pb != nil && bytes.Equal(pb.Header.PreviousBlockID, tip.Header.ID) && rapid.IntRange(0, 3).Draw(t, "restoreParked") != 0 {
+			kind = "restore"
+		}
 		if kind == "delete" && (tip.Header.Height == 0 || tip.Header.Height <= n0.Finalized()) {
 			kind = "apply"
 		}
@@ -222,6 +234,13 @@ func runCase(t *rapid.T) {
 		case "delete":
 			s = step{Kind: "delete", SaveTemp: rapid.Bool().Draw(t, "saveTemp"), Desc: fmt.Sprintf("delete h=%d", tip.Header.Height)}
 			s.Desc += fmt.Sprintf(" saveTemp=%v", s.SaveTemp)
+			if s.SaveTemp {
+				parked[tip.Header.Height] = tip
+			}
+		case "restore":
+			pb := parked[tip.Header.Height+1]
+			delete(parked, tip.Header.Height+1)
+			s = step{Kind: "restore", Block: pb, Desc: fmt.Sprintf("restore parked h=%d txs=%d (removeTemp)", pb.Header.Height, len(pb.Transactions))}
 		case "tiebreak":
 			sib, ok := buildTieBreak(t, n0)
 			if !ok {
